@@ -576,7 +576,7 @@ PROPS["C11"] = {
                   "ephemeral_binds_stepping_over_held_port": 5000, "binds_with_several_applicable_errors": 5000,
                   "tcp_probes_answered_by_holder": 8000, "tcp_probes_refused": 400000, "udp_probes_delivered_to_holder": 50000,
                   "held_endpoints_refused_to_fresh_socket": 150000, "free_endpoints_bound_by_sweep": 800000,
-                  "histories_with_attempt_waiting_at_rebound_acceptor": 2000, "waiting_datagrams_read_from_holder": 1500, "wrap_cases_that_wrapped": 3},
+                  "histories_with_attempt_waiting_at_rebound_acceptor": 2000, "waiting_datagrams_read_from_holder": 1500, "wrap_cases_that_wrapped": 3, "binds_of_already_bound_socket": 500},
         "thorough": {"binds_rejected_address_in_use": 50000, "rebinds_of_released_endpoint": 80000, "moves_of_bound_socket": 300000,
                      "tcp_probes_answered_by_holder": 80000, "wrap_cases_that_wrapped": 10, "ephemeral_binds": 1000000},
     },
